@@ -285,13 +285,17 @@ def check(ctx: Ctx) -> list[RuleResult]:
     # ---- R5 ---------------------------------------------------------------------------
     r5 = RuleResult("R5", "queue order key", "(priority, ..., unique counter) precede any unorderable element; smaller priority = more urgent", min_instances=2)
     sc = repo.func(f"{PC}.send_cmd")
-    puts = [n for n in own_nodes(sc.node) if isinstance(n, ast.Call) and isinstance(n.func, ast.Attribute) and n.func.attr in ("put_nowait", "put") and "_que" in norm(n.func.value)]
-    if not puts:
+    # the enqueue may sit in send_cmd itself or in a private method of the context that send_cmd calls
+    from .common import module_scope
+
+    sc_scope = [g for g in module_scope(ctx, sc) if g is sc or (g.cls is sc.cls and any(cs.caller is sc and g in cs.callees for cs in ctx.cg.calls_in(sc)))]
+    puts_in = [(g, n) for g in sc_scope for n in own_nodes(g.node) if isinstance(n, ast.Call) and isinstance(n.func, ast.Attribute) and n.func.attr in ("put_nowait", "put") and "_que" in norm(n.func.value)]
+    if not puts_in:
         raise AnalysisError("no queue put in send_cmd")
-    for pcall in puts:
+    for put_fn, pcall in puts_in:
         r5.instances += 1
         r5.nontrivial += 1
-        arg0 = expand(sc.node, pcall.args[0], pure_only=False) if pcall.args else None  # only the display's shape is inspected  # the entry may be built as a named local first
+        arg0 = expand(put_fn.node, pcall.args[0], pure_only=False) if pcall.args else None  # only the display's shape is inspected  # the entry may be built as a named local first
         tup = arg0 if isinstance(arg0, ast.Tuple) else None
         if tup is None:
             r5.fail(f"{sc.short}:entry-not-tuple", sc.loc(pcall), "the queue entry is not a tuple display")
